@@ -92,8 +92,10 @@ Definition rstep (g : cfg) (r : rstate) (e : tev) : option rstate :=
     match find (fun p => fst p =? c) (accepted r) with
     | None => None
     | Some (_, n0) =>
-      if closedret r then None
-      else if negb (Bool.eqb acc (hs_accept g asn fb)) then None
+      (* the verdict may be logged after TCloseRet: connect() holds s.mu, so a dial
+         accepted before Close returned completes its handshake first; only a
+         TAccept after TCloseRet is a dial after Close *)
+      if negb (Bool.eqb acc (hs_accept g asn fb)) then None
       else if acc then
         (* the first flush on c moves to a set that is at least as recent as
            (a) every Set that had returned when the dial was accepted (connect
